@@ -29,7 +29,9 @@
 From Coq Require Import List ZArith NArith Bool Permutation.
 From Astisub Require Import Kit.Base Kit.Str Kit.Float64 Kit.Float64x Kit.Xml Model.Dur Model.Ttml
   Proofs.DurProofs Proofs.TtmlBase Proofs.TtmlSpec Proofs.TtmlTime Proofs.TtmlFloat Proofs.TtmlFloat2 Proofs.TtmlTimeAll
-  Proofs.TtmlLines Proofs.TtmlPara Proofs.TtmlRefs Proofs.TtmlDocSpec Proofs.TtmlDoc Kit.XmlParse Proofs.XmlParseProofs Proofs.TtmlBytes.
+  Proofs.TtmlLines Proofs.TtmlPara Proofs.TtmlRefs Proofs.TtmlDocSpec Proofs.TtmlDoc Kit.XmlParse Proofs.XmlParseProofs Proofs.TtmlBytes
+  Proofs.TtmlRender Proofs.TtmlRenderTime Proofs.TtmlRenderDoc Proofs.TtmlReadRendered Proofs.TtmlRenderEx
+  Kit.XmlParse2 Proofs.XmlParse2Proofs Proofs.TtmlRenderBytesSpec Proofs.TtmlRenderBytes.
 Import ListNotations.
 Open Scope Z_scope.
 
@@ -156,6 +158,57 @@ Theorem C03_write_read_bytes : forall d ind, repr_doc d = true -> indent_ok ind 
   exists b t, write_ttml_bytes ind d = Ok b /\ xml_parse b = Some t /\ read_ttml t = Ok (written_value d).
 Proof. exact write_read_bytes. Qed.
 Print Assumptions C03_write_read_bytes.
+
+(* ---------------- the composite reading theorem ---------------- *)
+(* Ground-truth model [gdoc] (Proofs/TtmlRender.v): cues whose boundaries are exact instants (fractions of ns),
+   lines of runs with style references and inline attributes; styles in any order with arbitrary parent links
+   (shared parents, forward references - even cycles), regions with optional style; title, copyright, one of the
+   five mapped languages or none; frame rate, tick rate.  Rendering record [rendering]: per boundary ANY time
+   expression of the grammar ([texpr]: clock time with 0-3 fraction digits, clock time with frames, offsets in
+   h/m/s/ms/f/t with decimal fractions) that means the model's instant; the attributes of tt, style, region and p
+   in any order; any name-space assignment to element and attribute names (prefixes, default namespace); ANY
+   character data between structural elements (indentation or not) at every level; the three sections of head in
+   any order, title/copyright in either order; the paragraph content as groups (<br/> between or inside elements,
+   indentation before any node and around any <br/>); a language subtag; frameRate/tickRate written or omitted when
+   0; further attributes on tt (name-space declarations).  [render_ok] is the decidable check (side conditions of
+   the time theorems per boundary, permutations, references closed, identifiers distinct, content well formed and
+   meaning the model's lines).  Conclusion: the reader returns [denote_ttml r m] - the model's styles (with
+   parents), regions, metadata, cues - and every boundary read is the instant the model means ([boundary_ok]:
+   [denotes_instant], exact when a whole number of ns, else within 1 ns).  [ex_render_ok]/[ex_read_rendered]
+   (Proofs/TtmlRenderEx.v) is a worked example exercising every freedom at once; the harness replays it on the
+   library (suite ttmlrenderex). *)
+Theorem C03_read_rendered : forall r m, render_ok r m = true ->
+  read_ttml (render_ttml r m) = Ok (denote_ttml r m) /\
+  Forall2 boundary_ok (gd_items m) (td_items (denote_ttml r m)).
+Proof. exact read_rendered. Qed.
+Print Assumptions C03_read_rendered.
+Example C03_read_rendered_example : render_ok ex_rendering ex_model = true /\
+  read_ttml (render_ttml ex_rendering ex_model) = Ok (denote_ttml ex_rendering ex_model).
+Proof. split; [exact ex_render_ok | exact ex_read_rendered]. Qed.
+
+(* ---------------- the XML parser model for hand-written documents ---------------- *)
+(* [xml_parse2] (Kit/XmlParse2.v): prolog (declaration, comments, processing instructions), single- or double-quoted
+   attributes, white space inside tags, self-closing tags, the five predefined entities and numeric character
+   references (UTF-8), comments in content (character data merged), name-space resolution as Go's decoder; tied per
+   case to encoding/xml on every rendered document, the repository samples and the corpus (suite xmlparse2).  It
+   inverts the printer [print2] for every printing choice (quotes, self-closing, white space in tags) on every
+   printable tree ([wf2_root]: mixed content allowed, no CR). *)
+Theorem C03_parse2_print2 : forall pc t prolog, wf2_root t = true -> pchoice_ok pc t = true -> prolog_ok prolog = true ->
+  xml_parse2 (prolog ++ print2 print_name pc t) = Some t.
+Proof. exact parse2_print2. Qed.
+Print Assumptions C03_parse2_print2.
+
+(* the composite reading theorem through bytes: under the standard name-space assignment ([render_std]: default
+   namespace for elements, xml:id / xml:lang, tts:*, the two declarations on the root) and without CR ([bytes_ok]),
+   the rendered document printed with ANY printing choice and prolog is parsed by the XML parser model to a tree the
+   reader reads as what the rendering denotes *)
+Theorem C03_read_rendered_bytes : forall r m pc prolog,
+  render_ok r m = true -> bytes_ok r m = true -> pchoice_ok pc (render_std r m) = true -> prolog_ok prolog = true ->
+  exists t, xml_parse2 (prolog ++ print2 print_name pc (render_std r m)) = Some t /\ read_ttml t = Ok (denote_ttml r m).
+Proof. exact read_rendered_bytes. Qed.
+Print Assumptions C03_read_rendered_bytes.
+Example C03_read_rendered_bytes_example : render_ok ex_rendering ex_model = true /\ bytes_ok ex_rendering ex_model = true.
+Proof. split; vm_compute; reflexivity. Qed.
 
 (* ---------------- totality ---------------- *)
 Theorem C03_read_total : forall root s, read_ttml root <> Panic s.
